@@ -11,7 +11,6 @@ NA = {
     "C33": "alignment and rounding results are arithmetic over all usize inputs",
     "C35": "size-class fitting is arithmetic; exhaustive enumeration would be execution, not static analysis",
     "C37": "forwarding addresses are prefix sums over mark bitmaps (runtime values)",
-    "C40": "maximal-run partitioning is a loop-carried invariant over arbitrary sequences and key functions",
 }
 PENDING = "rule module not implemented yet in this revision (design in DESIGN.md chapter 4); not claimed until its check exists"
 
